@@ -65,6 +65,12 @@ impl Future for AsyncDerivedReadyFuture {
             self.wakers.write().or_poisoned().push(waker.clone());
             #[cfg(leptos_verif)]
             crate::verif_hooks::yield_point("ready:pushed");
+            // `notify_subs` stores `loading = false` and then drains `wakers`;
+            // if it did both between the load above and this push, nobody is
+            // left to wake this waker: look again and wake it ourselves
+            if !self.loading.load(Ordering::Relaxed) {
+                waker.wake_by_ref();
+            }
             Poll::Pending
         } else {
             Poll::Ready(())
@@ -148,6 +154,12 @@ where
                 self.wakers.write().or_poisoned().push(waker.clone());
                 #[cfg(leptos_verif)]
                 crate::verif_hooks::yield_point("await:pushed");
+                // `notify_subs` stores `loading = false` and then drains `wakers`;
+                // if it did both between the load above and this push, nobody is
+                // left to wake this waker: look again and wake it ourselves
+                if !self.loading.load(Ordering::Relaxed) {
+                    waker.wake_by_ref();
+                }
                 Poll::Pending
             }
             (_, Poll::Pending) => Poll::Pending,
@@ -218,6 +230,12 @@ where
                 self.wakers.write().or_poisoned().push(waker.clone());
                 #[cfg(leptos_verif)]
                 crate::verif_hooks::yield_point("await_ref:pushed");
+                // `notify_subs` stores `loading = false` and then drains `wakers`;
+                // if it did both between the load above and this push, nobody is
+                // left to wake this waker: look again and wake it ourselves
+                if !self.loading.load(Ordering::Relaxed) {
+                    waker.wake_by_ref();
+                }
                 Poll::Pending
             }
             (_, Poll::Pending) => Poll::Pending,
